@@ -79,3 +79,31 @@ def compile_schema(s: L.Schema, lang: str, optimize: bool = False, endian: str =
         return outs
     finally:
         shutil.rmtree(d, ignore_errors=True)
+
+
+def compile_schema_cli(s: L.Schema, lang: str, optimize: bool = False, endian: str = "both",
+                       filter_messages: Optional[List[str]] = None) -> Dict[str, str]:
+    """like compile_schema for the main file only, but through the real command line front end in a FRESH interpreter process
+    (`python -m bitproto._main`): nothing an earlier rendering left in the process can influence the text"""
+    import subprocess
+    import sys
+    d = tempfile.mkdtemp(dir=scratch())
+    try:
+        write_sources(s, d, None)
+        outdir = os.path.join(d, "out")
+        os.makedirs(outdir)
+        cmd = [sys.executable, "-m", "bitproto._main", lang, os.path.join(d, s.fname()), outdir, "-q", "--endian", endian]
+        if optimize:
+            cmd.append("-O")
+        if filter_messages is not None:
+            cmd += ["-F", ",".join(filter_messages)]
+        cp = subprocess.run(cmd, capture_output=True, text=True, timeout=300)
+        if cp.returncode != 0:
+            raise RuntimeError("bitproto exited with %d: %s" % (cp.returncode, (cp.stderr or cp.stdout)[-400:]))
+        outs = {}
+        for fn in os.listdir(outdir):
+            with open(os.path.join(outdir, fn)) as f:
+                outs[fn] = f.read()
+        return outs
+    finally:
+        shutil.rmtree(d, ignore_errors=True)
